@@ -154,6 +154,10 @@ class R:
                     q = [self.ident("c1"), "+", "coalesce", "("] + q + [",", "0", ")"]
                 elif how == "func":        # argument of a function
                     q = ["coalesce", "(", "("] + q + [")", ",", "0", ")"]
+                elif how == "paren2":      # doubled brackets
+                    q = ["("] + q + [")"]
+                elif how == "cond":        # below a bracketed CASE WHEN condition, as a function argument
+                    q = [self.kw("case"), self.kw("when"), "(", self.ident("c1"), "=", "coalesce", "(", "("] + q + [")", ",", "0", ")", ")", self.kw("then"), "1", self.kw("else"), "0", self.kw("end")]
                 elif how == "then":
                     q = [self.kw("case"), self.kw("when"), self.ident("c1"), ">", "0", self.kw("then")] + q + [self.kw("end")]
                 out += [","] + q + [self.kw("as"), self.ident("c2")]
